@@ -16,7 +16,7 @@ bound, CHESS-style.
 import sys
 import threading
 
-HANG_TIMEOUT = 20.0
+HANG_TIMEOUT = 8.0
 
 
 class HarnessFault(Exception):
@@ -62,6 +62,95 @@ class SLock:
         self.release()
 
 
+class SEvent:
+    """Drop-in for threading.Event under the scheduler: a thread waiting for an event that is not set
+    is disabled until some thread sets it.  A timeout only matters when nothing else can run: it then
+    expires (wait returns False) instead of counting as a deadlock."""
+
+    def __init__(self, sched, name="event"):
+        self.sched = sched
+        self.name = name
+        self._flag = False
+
+    def is_set(self):
+        return self._flag
+
+    isSet = is_set
+
+    def set(self):
+        self._flag = True
+        self.sched.wake(self)
+
+    def clear(self):
+        self._flag = False
+
+    def wait(self, timeout=None):
+        s = self.sched
+        me = s.current_id()
+        if me is None:
+            return self._flag
+        s.point(("wait", self.name))
+        while not self._flag:
+            if timeout is not None and not [t for t in s._enabled() if t != me]:
+                return False  # nothing else can run: the timeout expires
+            s.block(me, self)
+        return True
+
+
+class SCondition:
+    """Drop-in for threading.Condition under the scheduler (wait / notify / notify_all on an SLock)."""
+
+    def __init__(self, sched, lock=None, name="condition"):
+        self.sched = sched
+        self.lock = lock if lock is not None else SLock(sched, name + ".lock")
+        self.name = name
+        self._tickets = []
+
+    def acquire(self, *a, **k):
+        return self.lock.acquire(*a, **k)
+
+    def release(self):
+        return self.lock.release()
+
+    def __enter__(self):
+        return self.lock.acquire()
+
+    def __exit__(self, *a):
+        self.lock.release()
+
+    def wait(self, timeout=None):
+        s = self.sched
+        me = s.current_id()
+        if me is None:
+            return True
+        ticket = SEvent(s, self.name + ".ticket")
+        self._tickets.append(ticket)
+        self.lock.release()
+        ok = ticket.wait(timeout)
+        self.lock.acquire()
+        if not ok and ticket in self._tickets:
+            self._tickets.remove(ticket)
+        return ok
+
+    def wait_for(self, predicate, timeout=None):
+        r = predicate()
+        while not r:
+            if not self.wait(timeout) and timeout is not None:
+                return predicate()
+            r = predicate()
+        return r
+
+    def notify(self, n=1):
+        for t in self._tickets[:n]:
+            t.set()
+        del self._tickets[:n]
+
+    def notify_all(self):
+        self.notify(len(self._tickets))
+
+    notifyAll = notify_all
+
+
 class Scheduler:
     def __init__(self, prefix=(), opcode_targets=(), line_targets=(), call_targets=(), horizon=20000,
                  opcode_files=(), line_files=()):
@@ -94,6 +183,12 @@ class Scheduler:
 
     def lock(self, name="lock", point=True):
         return SLock(self, name, point)
+
+    def event(self, name="event"):
+        return SEvent(self, name)
+
+    def condition(self, lock=None, name="condition"):
+        return SCondition(self, lock, name)
 
     def current_id(self):
         return self._ident.get(threading.get_ident())
